@@ -35,6 +35,7 @@ def run(ctx: Ctx):
     ctx.attempt(haversine, ctx)
     ctx.attempt(snapping, ctx)
     ctx.attempt(coordinate_roles, ctx)
+    ctx.attempt(link_ids, ctx)
     ctx.floor("DU.route", 6)
     ctx.floor("CR", 3)
     ctx.not_decided += ["geometric content (a cell 'lies on' a link; great-circle geometry)"]
@@ -265,9 +266,32 @@ def coordinate_roles(ctx: Ctx):
               why_bad="argument order / unpacking changed", construct="create_link_entry:geo_to_h3-order")
 
 
+def link_ids(ctx: Ctx):
+    """Link ids are `<start node>-<end node>` and are parsed back in that order (the search endpoints are taken by index)."""
+    LID = "nrel/hive/model/roadnetwork/link_id.py"
+    repo = ctx.repo
+    fn = repo.func(LID, "create_link_id")
+    a, b = fn.params[:2]
+    ps = [p for p in flow.paths(fn.node) if p.kind == "return"]
+    ok = len(ps) == 1 and flow.dump(ps[0].value) == flow.dump(ast.parse('f"{%s}-{%s}"' % (a, b), mode="eval").body)
+    ctx.check(ok, "D1", "DU.link-id", "create_link_id(src, dst) = '<src>-<dst>'", fn, why_bad=f"returns {flow.dump(ps[0].value) if ps else '?'}", construct="create_link_id")
+    fn = repo.func(LID, "extract_node_ids")
+    l = fn.params[0]
+    oks = [p for p in flow.paths(fn.node) if p.kind == "return" and flow.classify_result(p.value) == "ok" and not p.has_marker("except")]
+    ok = bool(oks) and all(flow.dump(p.value.elts[1]) == f"(str({l}.split('-')[0]), str({l}.split('-')[1]))" for p in oks)
+    ctx.check(ok, "D1", "DU.link-id", "extract_node_ids returns (start node, end node) in the order they are written", fn,
+              why_bad=f"{[flow.dump(p.value)[:90] for p in oks]}", construct="extract_node_ids:order")
+    fn = repo.func(LID, "extract_node_ids_int")
+    l = fn.params[0]
+    oks = [p for p in flow.paths(fn.node) if p.kind == "return" and flow.classify_result(p.value) == "ok" and not p.has_marker("except")]
+    ok = bool(oks) and all(flow.dump(p.value.elts[1]) == f"(int(extract_node_ids({l})[1][0]), int(extract_node_ids({l})[1][1]))" for p in oks)
+    ctx.check(ok, "D1", "DU.link-id", "extract_node_ids_int keeps that order", fn, why_bad=f"{[flow.dump(p.value)[:120] for p in oks]}", construct="extract_node_ids_int:order")
+
+
 def selftest():
     from ..selftest import V
     return [
+        V("link-id-parse-swapped", "nrel/hive/model/roadnetwork/link_id.py", "            src = int(src_str)\n            dst = int(dst_str)\n            return None, (src, dst)", "            src = int(src_str)\n            dst = int(dst_str)\n            return None, (dst, src)", rule="DU.link-id"),
         V("unpack-swapped", OSM, "            _, origin_node_id = src_nodes\n            destination_node_id, _ = dst_nodes", "            origin_node_id, _ = src_nodes\n            _, destination_node_id = dst_nodes", rule="DU.route"),
         V("empty-inner-as-failure", OSM, "            elif inner_link_path is None:\n                return empty_route()", "            elif not inner_link_path:\n                return empty_route()", rule="DU.route"),
         V("start-end-swapped", OPS, "        src_link_traversal = src_link.to_link_traversal().update_start(src_link_pos.geoid)\n        dst_link_traversal = dst_link.to_link_traversal().update_end(dst_link_pos.geoid)",
